@@ -305,7 +305,17 @@ def run(cx, rep):
                 for c in walk(a["body"]):
                     if c["k"] == "Call" and F._callee_gid(f.crate, c.get("callee") or "") in wrappers:
                         n_mn += 1
-                        flag = c["args"][1]
+                        flag = strip_block(c["args"][1])
+                        # a local that names the flag (`let negate = !*allowed;`) stands for its only initialiser
+                        hops = 0
+                        while flag["k"] == "Path" and flag.get("res") == "local" and hops < 4:
+                            inits = [st_["init"] for st_ in walk(a["body"]) if st_["k"] == "LetStmt" and st_.get("init") is not None
+                                     and st_["pat"].get("k") == "P.Binding" and st_["pat"].get("lid") == flag.get("lid") and not st_["pat"].get("mut")]
+                            assigned = any(x["k"] in ("Assign", "AssignOp") and x["l"]["k"] == "Path" and x["l"].get("lid") == flag.get("lid") for x in walk(a["body"]))
+                            if len(inits) != 1 or assigned:
+                                break
+                            flag = strip_block(inits[0])
+                            hops += 1
                         ok = flag["k"] == "Unary" and flag["op"] == "Not" and locals_in(flag["e"]) == [bound]
                         rep.ob("C07.4", "maybe_not/%s" % (a["pat"].get("def") or "?").rsplit("::", 1)[-1], ok,
                                "maybe_not must be called with `!%s` of the enclosing %s arm (excluded sets are materialised as Not)" % (bound, a["pat"].get("def")),
@@ -456,40 +466,91 @@ def family_flow_rule(cx, rep, F, rid):
                "%s builds the %s form but can receive atoms fetched from the %s table(s): an atom of another family is printed as if it were a %s" % (
                    fns[g].id, sorted(ctor[g]), sorted(fs - ctor[g]), sorted(ctor[g])[0] if ctor[g] else "?"),
                fns[g].loc(), sample={"fn": fns[g].name, "builds": sorted(ctor[g]), "receives_atoms_of": sorted(fs)})
-    rep.floor(rid, "materialisers with an atomic parameter", n, 4)
+    # the inlined form: a closure / function body that fetches an atom from a table and prints it on the spot
+    for g in sorted(fns):
+        t = F.hir.get(g)
+        if t is None:
+            continue
+        scopes = [("", t["body"])] + [("{%s}" % (x.get("def") or "").rsplit("::", 1)[-1], x) for x in walk(t["body"]) if x["k"] == "Closure"]
+        for lab, sc in scopes:
+            acc, ks = set(), set()
+            for x in own_nodes(sc):
+                if x["k"] == "MethodCall" and x["method"] in ACCESSOR_FAMILY:
+                    acc.add(ACCESSOR_FAMILY[x["method"]])
+                if x["k"] == "Call":
+                    m = re.search(r"Runtype::(\w+)$", x.get("callee") or "")
+                    if m and m.group(1) in CTOR_FAMILY:
+                        ks.add(CTOR_FAMILY[m.group(1)])
+            if acc and ks:
+                n += 1
+                rep.ob(rid, "%s%s/inline" % (fns[g].name, lab), acc <= ks if len(ks) == 1 else True,
+                       "%s%s fetches atoms from the %s table(s) and prints them as the %s form" % (fns[g].id, lab, sorted(acc), sorted(ks)),
+                       fns[g].loc(), sample={"fn": fns[g].name + lab, "builds": sorted(ks), "fetches": sorted(acc)})
+    rep.floor(rid, "materialisers (atomic parameter, or fetched and printed in one body)", n, 4)
+
+
+def own_nodes(e):
+    """nodes of a function body / closure node, nested closures excluded"""
+    stack = [e]
+    while stack:
+        x = stack.pop()
+        if isinstance(x, dict):
+            if x.get("k") == "Closure" and x is not e:
+                continue
+            if "k" in x:
+                yield x
+            stack.extend(v for v in x.values() if isinstance(v, (dict, list)))
+        elif isinstance(x, list):
+            stack.extend(x)
 
 
 def atom_field_coverage(cx, rep, F):
     """C07.5: in each <family>_atom_schema(mt: &Rc<Atomic>) every returned value depends, by data or by the
     conditions guarding the return, on every field of the atomic type (table: fields that are empty by construction)"""
     exc = {(e["fn"], e["field"]): e for e in cx.table("c07_atom_fields.json")["ignored"]}
+    exc.update({("#" + e["family"], e["field"]): e for e in cx.table("c07_atom_fields.json")["ignored"] if e.get("family")})
     n = 0
     for gid in sorted(F.hir):
         f = F.fns.get(gid)
         if f is None or not (f.file or "").endswith("subtyping/to_schema.rs") or f.kind == "Closure":
             continue
-        # materialisers, by role: a parameter of an atomic type and a family constructor built in the body
+        # materialisers, by role: a parameter of an atomic type and a family constructor built in the body; or the
+        # inlined form - a closure / body that binds an atom fetched from a table and builds the constructor itself
+        def builds_in(nodes):
+            for n_ in nodes:
+                if n_["k"] == "Call" and re.search(r"Runtype::(object|record|any_object|map|tuple|array|any_array_like|set)$", n_.get("callee") or ""):
+                    return True
+                if n_["k"] == "Struct" and re.search(r"RuntypeKind::(Object|Map|Tuple|Array|Set)$", n_.get("def") or ""):
+                    return True
+            return False
         ins_ = f.inputs or []
-        if len(ins_) < 2 or not ("MappingAtomicType" in ins_[1] or "ListAtomic" in ins_[1]):
-            continue
-        builds = False
-        for n_ in walk(F.hir[gid]["body"]):
-            if n_["k"] == "Call" and re.search(r"Runtype::(object|record|any_object|map|tuple|array|any_array_like|set)$", n_.get("callee") or ""):
-                builds = True
-            if n_["k"] == "Struct" and re.search(r"RuntypeKind::(Object|Map|Tuple|Array|Set)$", n_.get("def") or ""):
-                builds = True
-        if not builds:
-            continue
-        tree = F.hir[gid]
-        ps = [p.get("name") for p in tree["params"]]
-        if len(ps) < 2:
-            continue
-        mt = ps[1]
-        m = re.search(r"Rc<([\w:]+)>", (f.inputs or ["", ""])[1])
+        units = []
+        if len(ins_) >= 2 and ("MappingAtomicType" in ins_[1] or "ListAtomic" in ins_[1]):
+            ps = [p.get("name") for p in F.hir[gid]["params"]]
+            if len(ps) >= 2 and builds_in(walk(F.hir[gid]["body"])):
+                units.append((F.hir[gid]["body"], ps[1], ins_[1], f.name))
+        else:
+            t0 = F.hir[gid]
+            for lab, sc in [("", t0["body"])] + [("{%s}" % (x.get("def") or "").rsplit("::", 1)[-1], x) for x in walk(t0["body"]) if x["k"] == "Closure"]:
+                if not builds_in(own_nodes(sc)):
+                    continue
+                for st_ in own_nodes(sc):
+                    if st_["k"] == "LetStmt" and st_.get("init") is not None and st_["pat"].get("k") == "P.Binding" and \
+                            any(x["k"] == "MethodCall" and x["method"] in ACCESSOR_FAMILY for x in own_nodes(st_["init"])):
+                        acc_ = next(x for x in own_nodes(st_["init"]) if x["k"] == "MethodCall" and x["method"] in ACCESSOR_FAMILY)
+                        units.append((sc["body"] if sc.get("k") == "Closure" else sc, st_["pat"]["name"], acc_.get("ty") or "", f.name + lab + "#" + ACCESSOR_FAMILY[acc_["method"]]))
+        for body_, mt, aty, uname in units:
+            n = cover_unit(F, rep, exc, f, body_, mt, aty, uname, n)
+    rep.floor("C07.5", "return sites of atom materialisers", n, 6)
+
+
+def cover_unit(F, rep, exc, f, body_, mt, aty, uname, n):
+        gid = f.id
+        m = re.search(r"Rc<([\w:]+)>", aty)
         adt = F.adts.get(m.group(1)) if m else None
         if adt is None:
-            rep.anchor_missing("C07.5", "atomic type of %s" % gid)
-            continue
+            rep.anchor_missing("C07.5", "atomic type of %s" % uname)
+            return n
         fields = {fl["name"] for fl in adt["variants"][0]["fields"]}
 
         def reads(e, env):
@@ -568,14 +629,14 @@ def atom_field_coverage(cx, rep, F):
             if tail:
                 results.append((e["line"], cond | reads(e, env)))
 
-        visit(tree["body"], set(), {}, True)
+        visit(body_, set(), {}, True)
         for line, got in results:
             n += 1
-            missing = {fl for fl in fields - got if (f.name, fl) not in exc}
-            rep.ob("C07.5", "%s/%s" % (f.name, "+".join(sorted(got)) or "none"), not missing,
-                   "%s returns a type that does not depend on the atom's field(s) %s: every list/mapping atom with that shape is materialised alike, whatever those fields hold" % (f.id, sorted(missing)),
-                   "%s:%s" % (f.file, line), sample={"fn": f.name, "return_depends_on": sorted(got)})
-    rep.floor("C07.5", "return sites of *_atom_schema", n, 6)
+            missing = {fl for fl in fields - got if (f.name, fl) not in exc and ("#" + uname.rsplit("#", 1)[-1], fl) not in exc}
+            rep.ob("C07.5", "%s/%s" % (uname, "+".join(sorted(got)) or "none"), not missing,
+                   "%s returns a type that does not depend on the atom's field(s) %s: every list/mapping atom with that shape is materialised alike, whatever those fields hold" % (uname, sorted(missing)),
+                   "%s:%s" % (f.file, line), sample={"fn": uname, "return_depends_on": sorted(got)})
+        return n
 
 
 def is_counter_ref(f, local):
